@@ -110,7 +110,7 @@ def shared_writes(E, reach):
         for ins, p, kind in E.writes_of(fname):
             o = E.owner(fname, p)
             o = E.bind_args(fname, o, reach)
-            bad = [t for t in o if not (t in ALLOWED or t.startswith('percall:') or _outparam(t))]
+            bad = [t for t in o if not (t in ALLOWED or t.startswith('percall:') or _outparam(t) or (t.startswith('logger:') and E.ir.cfg in ('tracing',)))]
             if bad:
                 out.append((fname, ins, kind, sorted(bad)))
     return out
